@@ -762,7 +762,7 @@ def build_models():
         (R(r"^std::io::copy::<"), m_io_copy),
         (R(r"^Crc32::calculate$"), m_crc_calculate),
         (R(r"^Crc32::new$"), m_crc_new),
-        (R(r"^<Vec<u8> as Deref(?:Mut)?>::deref(?:_mut)?$|^<String as Deref>::deref$"), m_deref_vec),
+        (R(r"^<Vec<.*> as Deref(?:Mut)?>::deref(?:_mut)?$|^<String as Deref>::deref$"), m_deref_vec),
         (R(r"^String::as_bytes$|^core::str::<impl str>::as_bytes$"), m_string_as_bytes),
         (R(r"^<.* as Fn<\(.*\)>>::call$"), m_fn_call),
     ]
